@@ -132,3 +132,21 @@ def c16k4(code: int, o3: int, p1: int, p2: int, p3: int, v0: int, v1: int, v2: i
         return hist(4, ops, pars, [v0, v1, v2, v3])
     except Exception as e:
         return "raised %s: %s" % (type(e).__name__, e)
+
+
+def c16w(code: int, sp: int, v0: int, v1: int, v2: int) -> str:
+    """
+    pre: LO <= code < HI and 0 <= code < 27
+    pre: 0 <= sp <= 1
+    post: (_ == '') != TWIN
+    """
+    # a linear history of five steps: three QMetaData calls (any of the three kinds each) with another operation between them, so that each one
+    # annotates a different node; values unbounded (the solver finds e.g. v0 == v2 != v1: a key that goes back to an earlier value)
+    code = pick(code, max(LO, 0), min(HI, 27))
+    spacer = [3, 5][pick(sp, 0, 2)]
+    ops = [code // 9, spacer, (code // 3) % 3, spacer, code % 3]
+    tick()
+    try:
+        return hist(5, ops, [0, 1, 2, 3, 4], [v0, 0, v1, 0, v2])
+    except Exception as e:
+        return "raised %s: %s" % (type(e).__name__, e)
